@@ -5,6 +5,7 @@ import (
 	"bytes"
 	"context"
 	"fmt"
+	"io"
 	"os"
 	"os/exec"
 	"path/filepath"
@@ -167,6 +168,10 @@ func runC20(cases []string, out *bufio.Writer, _ []string) {
 			if mode == "exit" {
 				exitAfter = f[4]
 			}
+			stall := kind == "console-stall" // the console is a pipe whose reader does nothing for 1.5 s
+			if stall {
+				kind = "console"
+			}
 			cargs := []string{"c20child", "-", os.DevNull, kind, f[1], f[2], dir, exitAfter, f[5]}
 			if len(f) > 7 {
 				cargs = append(cargs, f[7:]...)
@@ -180,12 +185,28 @@ func runC20(cases []string, out *bufio.Writer, _ []string) {
 			stdoutFile := filepath.Join(dir, "stdout.txt")
 			so, _ := os.Create(stdoutFile)
 			cmd.Stdout = so
+			var stallDone chan struct{}
+			var stallW *os.File
+			if stall {
+				sr, sw, _ := os.Pipe()
+				cmd.Stdout, stallW = sw, sw
+				stallDone = make(chan struct{})
+				go func() {
+					defer close(stallDone)
+					time.Sleep(1500 * time.Millisecond)
+					io.Copy(so, sr)
+					sr.Close()
+				}()
+			}
 			cmd.Stderr = nil
 			if err := cmd.Start(); err != nil {
 				results[i] = "spawn-error"
 				return
 			}
 			pw.Close()
+			if stallW != nil {
+				stallW.Close()
+			}
 			var acked []string
 			sc := bufio.NewScanner(pr)
 			killed := false
@@ -197,6 +218,9 @@ func runC20(cases []string, out *bufio.Writer, _ []string) {
 				}
 			}
 			cmd.Wait()
+			if stallDone != nil {
+				<-stallDone
+			}
 			so.Close()
 			// read the target
 			var data []byte
